@@ -1,2 +1,4 @@
 pub mod ast;
 pub mod build;
+pub mod exprgen;
+pub mod trivia;
